@@ -22,8 +22,8 @@ import (
 // C19 — directory listing: every entry exactly once, QIDs agree with Walk/GetAttr
 
 type listCase struct {
-	FS      string `json:"fs"`     // localfs | staticfs | composefs | composefs-nested | composefs-mount
-	N       int    `json:"n"`      // number of entries
+	FS      string `json:"fs"` // localfs | staticfs | composefs | composefs-nested | composefs-mount
+	N       int    `json:"n"`  // number of entries
 	NameLen int    `json:"name_len"`
 	Via     string `json:"via"`   // direct | server
 	Count   uint32 `json:"count"` // entries (direct) or bytes (server) per call
@@ -135,6 +135,20 @@ func buildFS(c listCase) (p9.Attacher, []string, []string, func(), *fail) {
 			return nil, nil, nil, cleanup, failf("harness-compose", "HARNESS-ERROR %v", err)
 		}
 		return fs, []string{"sub"}, names, cleanup, nil
+	case "composefs-static-mount":
+		var opts []staticfs.Option
+		for _, n := range names {
+			opts = append(opts, staticfs.WithFile(n, "content-"+n))
+		}
+		a, err := staticfs.New(opts...)
+		if err != nil {
+			return nil, nil, nil, cleanup, failf("harness-static", "HARNESS-ERROR %v", err)
+		}
+		fs, err := composefs.New(composefs.WithFile("top", staticfs.ReadOnlyFile("t")), composefs.WithMount("smnt", a))
+		if err != nil {
+			return nil, nil, nil, cleanup, failf("harness-compose", "HARNESS-ERROR %v", err)
+		}
+		return fs, []string{"smnt"}, names, cleanup, nil
 	default: // composefs-mount
 		dir, f := mkLocal()
 		if f != nil {
@@ -204,80 +218,85 @@ func runListCase(c listCase, st *listStats) *fail {
 		return failf("harness-open", "HARNESS-ERROR open directory: %v", err)
 	}
 	what := fmt.Sprintf("%s with %d entries (names of %d bytes), %s, count %d, msize %d", c.FS, len(names), c.NameLen, c.Via, c.Count, c.Msize)
-	got := map[string]int{}
-	var all []p9.Dirent
-	offset := uint64(0)
-	for iter := 0; ; iter++ {
-		if iter > len(names)+10 {
-			return failf("listing-does-not-terminate:"+c.FS, "%s: more than %d Readdir calls", what, len(names)+10)
+	for pass := 0; pass < 2; pass++ {
+		if pass == 1 {
+			what += " (second listing of the same directory)"
 		}
-		ents, err := lister.Readdir(offset, c.Count)
-		if err != nil {
-			return failf("readdir-error:"+c.FS, "%s: Readdir(offset=%d) failed: %v", what, offset, err)
+		got := map[string]int{}
+		var all []p9.Dirent
+		offset := uint64(0)
+		for iter := 0; ; iter++ {
+			if iter > len(names)+10 {
+				return failf("listing-does-not-terminate:"+c.FS, "%s: more than %d Readdir calls", what, len(names)+10)
+			}
+			ents, err := lister.Readdir(offset, c.Count)
+			if err != nil {
+				return failf("readdir-error:"+c.FS, "%s: Readdir(offset=%d) failed: %v", what, offset, err)
+			}
+			if st != nil {
+				st.calls++
+			}
+			if len(ents) == 0 {
+				break
+			}
+			for _, e := range ents {
+				got[e.Name]++
+				all = append(all, e)
+			}
+			offset = ents[len(ents)-1].Offset
 		}
-		if st != nil {
-			st.calls++
+		want := append([]string{}, names...)
+		sort.Strings(want)
+		var missing, dup, extra []string
+		for _, n := range want {
+			switch {
+			case got[n] == 0:
+				missing = append(missing, n)
+			case got[n] > 1:
+				dup = append(dup, n)
+			}
 		}
-		if len(ents) == 0 {
-			break
+		wantSet := map[string]bool{}
+		for _, n := range want {
+			wantSet[n] = true
 		}
-		for _, e := range ents {
-			got[e.Name]++
-			all = append(all, e)
+		for n := range got {
+			if !wantSet[n] {
+				extra = append(extra, n)
+			}
 		}
-		offset = ents[len(ents)-1].Offset
-	}
-	want := append([]string{}, names...)
-	sort.Strings(want)
-	var missing, dup, extra []string
-	for _, n := range want {
-		switch {
-		case got[n] == 0:
-			missing = append(missing, n)
-		case got[n] > 1:
-			dup = append(dup, n)
+		if len(missing)+len(dup)+len(extra) > 0 {
+			return failf("listing-incomplete:"+c.FS, "%s: paged listing in %d calls: %d entries missing (%.120s), %d listed more than once (%.120s), %d unknown (%.120s)", what, 0, len(missing), strings.Join(missing, ","), len(dup), strings.Join(dup, ","), len(extra), strings.Join(extra, ","))
 		}
-	}
-	wantSet := map[string]bool{}
-	for _, n := range want {
-		wantSet[n] = true
-	}
-	for n := range got {
-		if !wantSet[n] {
-			extra = append(extra, n)
+		// QID / type agreement with Walk and GetAttr (sampled for large directories)
+		step := 1
+		if len(all) > 60 {
+			step = len(all) / 60
 		}
-	}
-	if len(missing)+len(dup)+len(extra) > 0 {
-		return failf("listing-incomplete:"+c.FS, "%s: paged listing in %d calls: %d entries missing (%.120s), %d listed more than once (%.120s), %d unknown (%.120s)", what, 0, len(missing), strings.Join(missing, ","), len(dup), strings.Join(dup, ","), len(extra), strings.Join(extra, ","))
-	}
-	// QID / type agreement with Walk and GetAttr (sampled for large directories)
-	step := 1
-	if len(all) > 60 {
-		step = len(all) / 60
-	}
-	for i := 0; i < len(all); i += step {
-		e := all[i]
-		qs, f2, err := dirw.Walk([]string{e.Name})
-		if err != nil || len(qs) != 1 {
-			return failf("walk-to-listed-entry-failed:"+c.FS, "%s: Walk(%q) after listing it: %v (%d QIDs)", what, e.Name, err, len(qs))
-		}
-		q, _, attr, err := f2.GetAttr(p9.AttrMaskAll)
-		f2.Close()
-		if err != nil {
-			return failf("getattr-of-listed-entry-failed:"+c.FS, "%s: GetAttr(%q): %v", what, e.Name, err)
-		}
-		if e.QID != qs[0] || e.QID != q {
-			return failf("qid-disagreement:"+c.FS, "%s: entry %q is listed with QID %v, Walk returns %v, GetAttr returns %v", what, e.Name, e.QID, qs[0], q)
-		}
-		if e.Type != q.Type || e.Type != attr.Mode.QIDType() {
-			return failf("type-disagreement:"+c.FS, "%s: entry %q is listed with type %#x, its QID has type %#x, its mode %#o means %#x", what, e.Name, uint8(e.Type), uint8(q.Type), uint32(attr.Mode), uint8(attr.Mode.QIDType()))
+		for i := 0; i < len(all); i += step {
+			e := all[i]
+			qs, f2, err := dirw.Walk([]string{e.Name})
+			if err != nil || len(qs) != 1 {
+				return failf("walk-to-listed-entry-failed:"+c.FS, "%s: Walk(%q) after listing it: %v (%d QIDs)", what, e.Name, err, len(qs))
+			}
+			q, _, attr, err := f2.GetAttr(p9.AttrMaskAll)
+			f2.Close()
+			if err != nil {
+				return failf("getattr-of-listed-entry-failed:"+c.FS, "%s: GetAttr(%q): %v", what, e.Name, err)
+			}
+			if e.QID != qs[0] || e.QID != q {
+				return failf("qid-disagreement:"+c.FS, "%s: entry %q is listed with QID %v, Walk returns %v, GetAttr returns %v", what, e.Name, e.QID, qs[0], q)
+			}
+			if e.Type != q.Type || e.Type != attr.Mode.QIDType() {
+				return failf("type-disagreement:"+c.FS, "%s: entry %q is listed with type %#x, its QID has type %#x, its mode %#o means %#x", what, e.Name, uint8(e.Type), uint8(q.Type), uint32(attr.Mode), uint8(attr.Mode.QIDType()))
+			}
 		}
 	}
 	return nil
 }
 
 func genListCase(rt *rapid.T, maxN int) listCase {
-	c := listCase{FS: rapid.SampledFrom([]string{"localfs", "localfs", "staticfs", "composefs", "composefs-nested", "composefs-mount"}).Draw(rt, "fs"),
+	c := listCase{FS: rapid.SampledFrom([]string{"localfs", "localfs", "staticfs", "composefs", "composefs-nested", "composefs-mount", "composefs-static-mount"}).Draw(rt, "fs"),
 		Via: rapid.SampledFrom([]string{"direct", "server", "server"}).Draw(rt, "via"), Seed: rapid.Uint64Range(1, 1<<40).Draw(rt, "seed")}
 	c.N = rapid.SampledFrom([]int{0, 1, 2, 3, 10, 100, 1000, maxN}).Draw(rt, "n")
 	if c.N > maxN {
@@ -318,7 +337,7 @@ func TestC19(t *testing.T) {
 	defer h.Finish()
 	env := h.Env
 	if env.Shard == 0 {
-		for _, fs := range []string{"localfs", "staticfs", "composefs", "composefs-nested", "composefs-mount"} {
+		for _, fs := range []string{"localfs", "staticfs", "composefs", "composefs-nested", "composefs-mount", "composefs-static-mount"} {
 			for _, n := range []int{0, 1, 2, 3, 10, 100} {
 				for _, via := range []string{"direct", "server"} {
 					for _, cnt := range []uint32{1, 3, 10, 100} {
@@ -340,7 +359,7 @@ func TestC19(t *testing.T) {
 				}
 			}
 		}
-		h.Exhaustive("5 file systems x sizes {0,1,2,3,10,100} x {direct, server} x 4 page sizes")
+		h.Exhaustive("6 file systems x sizes {0,1,2,3,10,100} x {direct, server} x 4 page sizes")
 	}
 	rapidCases(h, "listings", env.PerShard(env.Pick(1600, 16000)), func(rt *rapid.T) listCase {
 		return genListCase(rt, env.Pick(1000, 5000))
